@@ -36,6 +36,11 @@ func auditWorker(t *task, res *result, progress func()) {
 		{{"SADD", ks.K0, "a"}, {"SADD", ks.K2, "a"}, {"SADD", ks.K3, "a"}},
 		{{"HSET", ks.K0, "a", "1"}, {"ZADD", ks.K2, "1", "a"}},
 		{{"SET", ks.K0, "1", "EX", "1"}, {"SET", ks.K2, "1", "EX", "1"}, {"@advance", "2500"}},
+		// keys of different types side by side: a multi-key command meets a wrong-typed operand in its
+		// second or third position (the error paths that return early from a locked region)
+		{{"SADD", ks.K0, "a"}, {"SET", ks.K1, "x"}, {"SADD", ks.K2, "b"}, {"RPUSH", ks.K3, "c"}},
+		{{"RPUSH", ks.K0, "a"}, {"SADD", ks.K1, "b"}, {"SET", ks.K2, "1"}, {"SADD", ks.K3, "a"}},
+		{{"SET", ks.K0, "1"}, {"SADD", ks.K1, "b"}, {"RPUSH", ks.K2, "a"}, {"HSET", ks.K3, "f", "v"}},
 	}
 	seen := map[string]bool{}
 	idx := 0
